@@ -57,7 +57,7 @@ impl Property for C13 {
 
     fn cases(&self, tier: Tier) -> u32 {
         match tier {
-            Tier::Quick => 12_000,
+            Tier::Quick => 40_000,
             Tier::Thorough => 150_000,
         }
     }
